@@ -205,6 +205,13 @@ class CompiledLogicNet(torch.nn.Module):
                 if tuple(int(v) for v in current_shape) != tuple(int(v) for v in expected):
                     raise ValueError(f"Convolution {layer_idx} expects input of shape {expected}, "
                                      f"but the preceding layers produce {tuple(current_shape)}.")
+            elif layer_type == 'pool':
+                pool_info = self.pooling_layers[layer_idx]
+                k, s, p = pool_info['kernel_size'], pool_info['stride'], pool_info['padding']
+                # the domain of max_pool2d / max_pool3d, which OrPooling.forward calls
+                if not (k > 0 and s > 0 and 0 <= 2 * p <= k and all(int(n) + 2 * p >= k for n in current_shape[1:])):
+                    raise ValueError(f"OrPooling {layer_idx} (kernel_size={k}, stride={s}, padding={p}) is not defined "
+                                     f"on an input of shape {tuple(current_shape)}.")
             elif layer_type == 'linear':
                 if len(current_shape) != 1 or int(current_shape[0]) != self.linear_in_dims[layer_idx]:
                     raise ValueError(f"LogicDense {layer_idx} expects {self.linear_in_dims[layer_idx]} inputs, "
